@@ -133,3 +133,12 @@ Theorem C07_api_files_full_block : forall c ops, vcfg c -> c_chunk c = false -> 
          (all_files (p_w (fold_left (api_state c) ops py_init))).
 Proof. exact api_files_full_block. Qed.
 Print Assumptions C07_api_files_full_block.
+
+(* ---- T17: the sources this property rests on keep no state outside the objects the model has (no static locals
+   or mutable globals in C, no class-level / module-level containers, `global` rebinding or cache decorators in
+   Python): the list of such sites, regenerated from the sources on every run, is empty *)
+From Coq Require Import String List.
+From DRF Require Import Gen.StateSites Proofs.StateSitesProofs.
+Theorem C07_no_state_outside_the_modelled_objects : state_sites_c_library = @nil string /\ state_sites_extension = @nil string /\ state_sites_rf_python = @nil string.
+Proof. repeat split; first [exact no_state_outside_objects_c_library | exact no_state_outside_objects_extension | exact no_state_outside_objects_rf_python]. Qed.
+Print Assumptions C07_no_state_outside_the_modelled_objects.
